@@ -8,7 +8,8 @@ TXRF = re.compile(r"rf=\d+/(\d+)/(\d+)/")
 ID = "C08"
 THEOREMS = ["C08_answers_whole", "C08_answers_bounded", "C08_answers_in_order_trailing_dropped", "C08_rxparamsetup_atomic", "C08_rxtimingsetup_effect", "C08_rx1_delay_values",
             "C08_dlchannel_atomic", "C08_newchannel_atomic", "C08_linkadr_atomic", "C08_sticky_answers",
-            "C08_accepted_linkadr_governs_next_uplink"]
+            "C08_accepted_linkadr_governs_next_uplink", "C08_dynamic_plan_rejects_rfu_chmaskcntl", "C08_rfu_chmaskcntl_poisons_the_block",
+            "C08_poisoned_block_is_rejected", "C08_block_poison_persists"]
 BAND = {0: (915000000, 928000000), 1: (915000000, 928000000), 2: (915000000, 928000000), 3: (917000000, 920000000),
         4: (915000000, 928000000), 5: (863000000, 870000000), 6: (433050000, 434790000), 7: (865000000, 867000000), 8: (902000000, 928000000)}
 MAXOFF = {0: 7, 1: 7, 2: 7, 3: 7, 4: 5, 5: 5, 6: 5, 7: 7, 8: 3}
@@ -273,7 +274,9 @@ def oracle(case, impl, model=None):
                             pbm, pam = pending_reqs.get("plan_before"), pending_reqs.get("plan_after")
                             if region not in (4, 8) and ((p[3] >> 4) & 7) == 0 and pam and pam[1][:2] != [p[1], p[2]]:
                                 return {"kind": "LinkADRReq fully acknowledged but the channel mask is not the commanded one", "request": p.hex(), "mask": pam[1][:2]}
-                            if ((p[3] >> 4) & 7) == 7 and region not in (4, 8):
+                            # RP002 (EU868, EU433, IN865, AS923: 16 channels): ChMaskCntl 0 = channels 0-15, 6 = all defined channels on,
+                            # 1-5 and 7 RFU; "if the ChMaskCntl field value is one of values meaning RFU, the end-device SHALL reject the command"
+                            if ((p[3] >> 4) & 7) not in (0, 6) and region not in (4, 8):
                                 return {"kind": "LinkADRReq with an RFU ChMaskCntl was fully acknowledged", "request": p.hex()}
                         elif (b[0], b[2]) != (af[0], af[2]):
                             return {"kind": "LinkADRReq answered with a rejection but data rate / power changed", "before": b, "after": af}
